@@ -46,30 +46,30 @@ def spec(events, k, kinds, dlen):
 
 
 def snd(name, w, blk, j, flen, rep=1, k=1, kinds=ALLK, oracle=0, b0=(0, 65535), hs=False, fs=False,
-        unw=None, timeout=900, family="snd_inject", mem_kb=None, events=None, tmo=0):
+        unw=None, timeout=900, family="snd_inject", mem_kb=None, events=None, tmo=0, r0=0):
     sp, events = spec(events, k, kinds, 0)
     k = len(events)
     unw = unw or (max(w if w < 100 else 4, blk, rep, k + 1, 3) + 3)
-    inv = "snd_inject!(%s, %d, %d, %d, %d, %d, %s, %d, %d, %d, %d, %s, %s, %d);" % (
+    inv = "snd_inject!(%s, %d, %d, %d, %d, %d, %s, %d, %d, %d, %d, %s, %s, %d, %d);" % (
         name, w, blk, j, flen, rep, sp, tmo, oracle, b0[0], b0[1], "true" if hs else "false",
-        "true" if fs else "false", unw)
+        "true" if fs else "false", r0, unw)
     return Inst(name, "worker", inv, family, {
         "role": "sender", "W": w, "blksize": blk, "preloaded_blocks": j, "tail_len": flen, "repeat": rep,
         "events": k, "event_script(kinds_mask, number rel. to window front or any, payload)": events,
         "oracle_mask": oracle, "start_block": "%d..=%d" % b0,
         "negotiated_timeout": "symbolic 1..=255 s" if tmo == 0 else "%d s" % tmo,
-        "handshake": hs, "from_start": fs, "unwind": unw}, timeout=timeout, mem_kb=mem_kb)
+        "handshake": hs, "from_start": fs, "injected_retry_count": {0: "none", 9: "symbolic 0..5"}.get(r0, r0), "unwind": unw}, timeout=timeout, mem_kb=mem_kb)
 
 
 def rcv(name, w, blk, j, flen, rep=1, k=1, kinds=ALLK, dlen=2, oracle=0, b0=(0, 65535), start=False,
-        unw=None, timeout=900, family="rcv_inject", mem_kb=None, events=None, tmo=0):
+        unw=None, timeout=900, family="rcv_inject", mem_kb=None, events=None, tmo=0, r0=0):
     sp, events = spec(events, k, kinds, dlen)
     k = len(events)
     unw = unw or 12
-    inv = "rcv_inject!(%s, %d, %d, %d, %d, %d, %s, %d, %d, %d, %d, %s, %d);" % (
-        name, w, blk, j, flen, rep, sp, tmo, oracle, b0[0], b0[1], "true" if start else "false", unw)
+    inv = "rcv_inject!(%s, %d, %d, %d, %d, %d, %s, %d, %d, %d, %d, %s, %d, %d);" % (
+        name, w, blk, j, flen, rep, sp, tmo, oracle, b0[0], b0[1], "true" if start else "false", r0, unw)
     return Inst(name, "worker", inv, family, {
         "role": "receiver", "W": w, "blksize": blk, "buffered_blocks": j, "flushed_bytes": flen, "repeat": rep,
         "events": k, "event_script(kinds_mask, number rel. to last in-order block or any, payload len)": events,
         "oracle_mask": oracle,
-        "last_inorder_block": "%d..=%d" % b0, "from_start": start, "unwind": unw}, timeout=timeout, mem_kb=mem_kb)
+        "last_inorder_block": "%d..=%d" % b0, "from_start": start, "injected_retry_count": {0: "none", 9: "symbolic 0..5"}.get(r0, r0), "unwind": unw}, timeout=timeout, mem_kb=mem_kb)
